@@ -303,6 +303,7 @@ func (i StartSubroutine) String() string {
 }
 
 func (i StartSubroutine) adjust(offset int, state *GenState) SearchInstruction {
+	i.Id += offset
 	i.EndOffset += offset
 	return i
 }
